@@ -1,11 +1,11 @@
 #!/bin/bash
-# seedtest.sh <patch> <prop> [tier]  : apply a seeded change to /repo, run ./check <prop>, undo it straight afterwards.
-# prints DETECTED / MISSED / BROKEN
+# seedtest.sh <seed-name|patch> <prop> [tier] : run ./check <prop> against a private scratch copy of /repo with the
+# seeded change applied (VERIF_REPO), so /repo itself is never touched.  Prints DETECTED / MISSED / BROKEN.
 P=$1; PROP=$2; TIER=${3:-quick}; case "$P" in /*) ;; *) P=/verif/seeded/$P/patch.diff;; esac
 cd /verif
-git -C /repo diff --quiet || { echo "repo dirty"; exit 2; }
-git -C /repo apply "$P" || { echo "patch does not apply"; exit 2; }
-trap 'git -C /repo checkout -- . ' EXIT
-out=$(./check $PROP $TIER 2>&1); rc=$?
-echo "$out" | grep -E 'VIOLATION|KNOWN|BROKEN|BUILD' | head -5 | cut -c1-300
-case $rc in 0) echo "MISSED $PROP $(basename $(dirname $(dirname $P)) 2>/dev/null) $P";; 1) echo "DETECTED $PROP $P";; *) echo "BROKEN($rc) $PROP $P"; echo "$out" | tail -5 | cut -c1-300;; esac
+R=$(mktemp -d /var/tmp/seedrepo.XXXXXX); trap 'rm -rf $R' EXIT
+cp -a /repo/. $R/ && git -C $R checkout -q -- . 
+git -C $R apply "$P" || { echo "patch does not apply"; exit 2; }
+out=$(VERIF_REPO=$R ./check $PROP $TIER 2>&1); rc=$?
+echo "$out" | grep -E 'VIOLATION|KNOWN|BROKEN|BUILD' | head -3 | cut -c1-220
+case $rc in 0) echo "MISSED $PROP $P";; 1) echo "DETECTED $PROP $P";; *) echo "BROKEN($rc) $PROP $P"; echo "$out" | tail -5 | cut -c1-300;; esac
